@@ -13,9 +13,12 @@ MCProcs3 == {"web", "worker", "a b"}
 -----------------------------------------------------------------------------
 (* C04 *)
 
-\* one delta on N1: any subset of the five behaviours, values tagged by delta and behaviour
-DeltaOn(s, tag, bs) ==
-  { Entry(s, b, "N1", IF b = "delim" THEN <<tag \o ":">> ELSE <<tag \o b>>) : b \in bs }
+\* one delta on N1: any subset of the five behaviours, values tagged by delta and behaviour;
+\* with ev the appended / prepended values are empty strings (a legal empty NAME.append file)
+DeltaOnE(s, tag, bs, ev) ==
+  { Entry(s, b, "N1", IF b = "delim" THEN <<tag \o ":">>
+                      ELSE IF ev /\ b \in {"append", "prepend"} THEN <<>> ELSE <<tag \o b>>) : b \in bs }
+DeltaOn(s, tag, bs) == DeltaOnE(s, tag, bs, FALSE)
 
 \* what happens to the bystander variable N2
 N2Variants(s) == { {}, {Entry("all", "override", "N2", <<"n2o">>)}, {Entry(s, "append", "N2", <<"n2a">>)} }
@@ -23,8 +26,8 @@ N2Variants(s) == { {}, {Entry("all", "override", "N2", <<"n2o">>)}, {Entry(s, "a
 Prevs == {Unset, Val(<<>>), Val(<<"p">>)}
 
 C04Cases(allSubsets, ownSubsets, scopes) ==
-  { [E |-> DeltaOn("all", "A", ba) \cup DeltaOn(s, "S", bs) \cup n2, prev |-> pv]
-      : ba \in allSubsets, bs \in ownSubsets, s \in scopes, n2 \in UNION {N2Variants(x) : x \in scopes},
+  { [E |-> DeltaOnE("all", "A", ba, ev) \cup DeltaOnE(s, "S", bs, ev) \cup n2, prev |-> pv]
+      : ev \in BOOLEAN, ba \in allSubsets, bs \in ownSubsets, s \in scopes, n2 \in UNION {N2Variants(x) : x \in scopes},
         pv \in Prevs }
 
 Env0(pv) == [n \in NameSet |-> IF n = "N1" THEN pv ELSE Val(<<"z">>)]
